@@ -13,10 +13,14 @@ oracles (real code only):
   * history: a physical quantity followed through a history of link / re-link / convert / scale calls on the real object:
       - linking to a parent (init, set(parent_dt/parent_unit), update_cached) never changes the quantity in its own unit (`v`);
       - after EVERY call: dur: values x parent step = v x own period; rate: values / parent step = v / own period; time_prob / beta /
-        rate_prob: values = the formula of the property evaluated from the object's CURRENT fields (60-digit reference);
+        rate_prob: values = the formula of the property (60-digit reference) evaluated from the unit / dt fields that the calls made so
+        far ASK for (`track`; round 4) — not from what the object recorded — and the object must record exactly those fields;
       - across to()/to_parent(): the quantity (in days) is the same before and after, however many conversions and links came before;
       - the receiver of to()/to_parent()/`*` is left exactly as it was, every object left behind in the chain still is at the end
         what it was when it was left, and the user's input array is untouched.
+  * module_relink (round 4): the parameters of a probe module in a real sim vs the module's (unit, dt), again after the module's step was
+    changed and Module.init_time(force=True) linked them anew; and every per-step identity oracle of c06.py on parameters that already
+    have another parent when they are linked (`pre` of c06.build);
   * rateprob_mono: the rate-derived probability is non-decreasing in dt, strictly increasing and strictly below 1 wherever the exact
     1-exp(-rate*dt) is (no early saturation), for rates from 1e-12 to 1e4 per reference period;
   * the existing `rateprob` formula oracle on a fixed grid of magnitudes (every ordered unit pair, scalar and array) in every run.
@@ -81,17 +85,43 @@ def expected_values(c06, kind, v, f):
     return 1 - E, Dm(U * float(4 + E * 4 * xx) * 4)
 
 
-def check_values(c06, kind, x):
-    """ values of the real object vs the formula evaluated from its own current fields -> None or text """
-    f = c06.exact_ratio(x.unit, x.self_dt, x.parent_unit, x.parent_dt)
+def check_values(c06, kind, x, exp=None):
+    """ values of the real object vs the formula evaluated from the unit / dt fields `exp` that the history of calls ASKED for
+        (never from what the object recorded: a parameter that remembers the wrong parent is consistent with itself) -> None or text """
+    e = exp or dict(unit=x.unit, sdt=x.self_dt, punit=x.parent_unit, pdt=x.parent_dt)
+    f = c06.exact_ratio(e['unit'], e['sdt'], e['punit'], e['pdt'])
     vs = c06.flat(x.v); vals = c06.flat(x.values)
     if len(vs) != len(vals): return f'values has {len(vals)} elements, v has {len(vs)}'
     for v, val in zip(vs, vals):
         ref, tol = expected_values(c06, kind, v, f)
         if abs(c06.D(val) - ref) > tol:
             law = {'dur': 'v x own period / parent step', 'rate': 'v x parent step / own period', 'rate_prob': '1-exp(-rate*dt)'}.get(kind, '1-(1-p)^(1/factor)')
-            return f'values={val!r} but {law} = {float(ref)!r} for v={v!r} (own period / parent step = {float(f)!r})'
+            return (f"values={val!r} but {law} = {float(ref)!r} for v={v!r} with own period ({e['unit']}, {e['sdt']}) and parent step ({e['punit']}, {e['pdt']}) "
+                    f"(own period / parent step = {float(f)!r}; the object records parent=({x.parent_unit}, {x.parent_dt}), factor={x.factor!r})")
     return None
+
+
+def track(exp, op, canon):
+    """ the unit / dt fields the calls ask for: what `exp` becomes by the call `op` (None arguments leave a field alone; a parameter
+        without a parent unit takes its own, and vice versa) """
+    e = dict(exp); name = op[0]
+    if name in ('init', 'initp'):
+        pu, pdt = (op[1], op[2]) if name == 'init' else (op[2], op[3])
+        if pu is not None: e['punit'] = canon(pu)
+        if pdt is not None: e['pdt'] = pdt
+        if e['unit'] is None: e['unit'] = e['punit']
+        if e['punit'] is None: e['punit'] = e['unit']
+        if e['pdt'] is None: e['pdt'] = e['sdt'] if e['sdt'] is not None else 1.0
+    elif name == 'set':
+        for k, f in (('unit', 'unit'), ('parent_unit', 'punit'), ('parent_dt', 'pdt'), ('self_dt', 'sdt')):
+            if op[1].get(k) is not None: e[f] = canon(op[1][k]) if 'unit' in k else op[1][k]
+    elif name == 'to':
+        u = op[1] if op[1] is not None else (e['punit'] if e['punit'] is not None else e['unit'])
+        d = op[2] if op[2] is not None else 1.0
+        e = dict(unit=canon(u), sdt=d, punit=canon(u), pdt=d)
+    elif name == 'toparent':
+        e = dict(unit=e['punit'], sdt=e['pdt'], punit=e['punit'], pdt=e['pdt'])
+    return e
 
 
 def quantity_days(c06, kind, x):
@@ -105,9 +135,12 @@ def o_history(a, c06):
     kind = a['kind']
     user = c06.pyval(a['v']); orig = _cp(user)
     sig = dict(oracle='history', kind=kind, branch=c06.branch(a['v']))
-    cur = getattr(ss, kind)(user, unit=a['unit'], self_dt=a.get('sdt', 1.0))
+    canon = lambda u: ss.time.unit_mapping[u]
+    cur = getattr(ss, kind)(user, unit=a['unit'], self_dt=a.get('sdt', 1.0), parent_unit=a.get('punit0'), parent_dt=a.get('pdt0'))
+    exp = dict(unit=canon(a['unit']), sdt=a.get('sdt', 1.0), punit=canon(a.get('punit0')), pdt=a.get('pdt0'))
     chain = []; nconv = 0; linked = False
-    def desc(k): return f"ss.{kind}({a['v']}, unit={a['unit']!r}, self_dt={a.get('sdt', 1.0)}) after calls {a['ops'][:k + 1]}"
+    ctor = ''.join(f', {k}={a[f]!r}' for k, f in (('parent_unit', 'punit0'), ('parent_dt', 'pdt0')) if a.get(f) is not None)
+    def desc(k): return f"ss.{kind}({a['v']}, unit={a['unit']!r}, self_dt={a.get('sdt', 1.0)}{ctor}) after calls {a['ops'][:k + 1]}"
     for k, op in enumerate(a['ops']):
         before = snap(cur); name = op[0]; new = None
         qbefore = quantity_days(c06, kind, cur) if kind in ('dur', 'rate') else None
@@ -119,6 +152,7 @@ def o_history(a, c06):
         elif name == 'toparent': new = cur.to_parent()
         elif name == 'mul': new = cur * op[1]
         else: raise RuntimeError(f'unknown op {op}')
+        exp = track(exp, op, canon)
         if new is None:
             linked = True
             # linking / re-linking leaves the quantity in its own unit alone
@@ -131,7 +165,7 @@ def o_history(a, c06):
             chain.append((k, cur, before))
             if name != 'mul':
                 nconv += 1
-                if (new.unit, float(new.self_dt)) != ((op[1], float(op[2])) if name == 'to' else (before['punit'], float(before['pdt']))):
+                if (new.unit, float(new.self_dt)) != (exp['unit'], float(exp['sdt'])):
                     return [F(dict(sig, check='target-not-recorded', op=name), f"{desc(k)}: the result has unit={new.unit!r}, self_dt={new.self_dt!r}")]
                 if kind in ('time_prob', 'beta'):
                     fc = c06.exact_ratio(before['unit'], before['sdt'], new.unit, new.self_dt)
@@ -147,9 +181,14 @@ def o_history(a, c06):
                                       f"and is {float(q1)!r} after it (v={np.asarray(new.v).tolist()}, unit={new.unit!r}, self_dt={new.self_dt})")]
             cur = new
         if linked or new is not None:
-            why = check_values(c06, kind, cur) if cur.values is not None else None
+            got = dict(unit=cur.unit, sdt=cur.self_dt, punit=cur.parent_unit, pdt=cur.parent_dt)
+            bad = [f for f in ('unit', 'punit') if got[f] != exp[f]] + [f for f in ('sdt', 'pdt') if got[f] is None or float(got[f]) != float(exp[f])]
+            why = check_values(c06, kind, cur, exp) if cur.values is not None else None
             if why:
                 return [F(dict(sig, check='values', op=name), f"{desc(k)}: {why}")]
+            if bad:
+                return [F(dict(sig, check='fields', op=name, field=bad[0]), f"{desc(k)}: the calls ask for own period ({exp['unit']}, {exp['sdt']}) and parent step ({exp['punit']}, {exp['pdt']}), "
+                          f"the object records own period ({got['unit']}, {got['sdt']}) and parent step ({got['punit']}, {got['pdt']})")]
     for k, obj, s in chain:
         d = same_snap(s, snap(obj))
         if d:
@@ -174,9 +213,13 @@ def fixed_history(rng, kind, array):
     v = [float(rng.choice(vs)) for _ in range(rng.choice([2, 3, 4]))] if array else rng.choice(vs)
     u0, u1 = rng.choice(CANON), rng.choice(CANON)
     d1 = rng.choice(HIST_DT); da = other(rng, HIST_DT, d1); db = other(rng, HIST_DT, da)
+    dc = other(rng, HIST_DT, 1.0); dd = other(rng, HIST_DT, dc); de = other(rng, HIST_DT, dd)
     ops = [['init', u0, 1.0], ['to', u1, d1], ['init', None, da], ['set', dict(parent_dt=db)], ['update'], ['set', dict(parent_dt=db)], ['to', u0, 1.0],
-           ['init', rng.choice(CANON), other(rng, HIST_DT, 1.0)]]
-    return no_rateprob_to(dict(kind=kind, v=v, unit=u0, sdt=1.0, ops=ops))
+           ['init', rng.choice(CANON), dc], ['init', rng.choice(CANON), dd], ['initp', rng.choice(['dict', 'time0']), rng.choice(CANON), de], ['initp', 'dict', rng.choice(CANON), other(rng, HIST_DT, de)]]
+    a = dict(kind=kind, v=v, unit=u0, sdt=1.0, ops=ops)
+    if array:   # a parent given to the constructor, then another one by linking
+        a.update(punit0=rng.choice(CANON), pdt0=other(rng, HIST_DT, 1.0)); ops[0] = ['init', u0, other(rng, HIST_DT, a['pdt0'])]
+    return no_rateprob_to(a)
 
 
 def no_rateprob_to(a):
@@ -201,12 +244,14 @@ def gen_history(rng):
                              dict(self_dt=rng.choice(HIST_DT)), dict(unit=rng.choice(CANON))])
             ops.append(['set', kw])
         elif r < 0.62: ops.append(['update'])
-        elif r < 0.85: ops.append(['to', rng.choice(CANON), rng.choice(HIST_DT)])
+        elif r < 0.85: ops.append(['to', rng.choice(CANON + [None]), rng.choice(HIST_DT + [None])])   # None: the parent's unit / dt 1
         elif r < 0.93: ops.append(['toparent'])
         else: ops.append(['mul', rng.choice([0.5, 0.25, 1.0])])
     if ops[0][0] not in ('init', 'initp'):   # the property speaks about parameters that are linked to a parent
         ops.insert(0, ['init', rng.choice(CANON), rng.choice(HIST_DT)])
-    return no_rateprob_to(dict(kind=kind, v=v, unit=rng.choice(CANON), sdt=rng.choice([1.0, 1.0, 0.5, 2.0]), ops=ops))
+    a = dict(kind=kind, v=v, unit=rng.choice(CANON), sdt=rng.choice([1.0, 1.0, 0.5, 2.0]), ops=ops)
+    if rng.random() < 0.3: a.update(punit0=rng.choice(CANON + [None]), pdt0=rng.choice(HIST_DT))
+    return no_rateprob_to(a)
 
 
 # ---------------------------------------------------------------------------
@@ -240,7 +285,54 @@ def o_rateprob_mono(a, c06):
     return out
 
 
-ORACLES = dict(history=o_history, rateprob_mono=o_rateprob_mono)
+# ---------------------------------------------------------------------------
+# oracle: a module's time parameters after the module's step changed (Module.init_time(force=True))
+
+RELINK_TIMES = [('day', 1, 'day', 1, 2), ('day', 1, 'day', 3, 1), ('day', 1, 'day', 2, 7), ('day', 1, 'week', 1, 2), ('day', 7, 'week', 2, 1), ('year', 0.1, 'year', 0.5, 0.1),
+                ('year', 0.25, 'year', 0.25, 1.0), ('year', 1.0, 'year', 1.0, 0.5), ('year', 0.5, 'month', 6, 12), ('week', 1, 'week', 1, 4), ('month', 1, 'month', 1, 3)]
+
+
+def o_module_relink(a, c06):
+    """ the parameters of a module in a real sim describe the same quantity for the module's step — also after the step was changed
+        and the parameters were linked again with Module.init_time(force=True) """
+    import starsim as ss
+    canon = lambda u: ss.time.unit_mapping[u]
+    specs = {k: tuple(v) for k, v in a['specs'].items()}
+    dur = {'year': 3, 'month': 24, 'week': 60, 'day': 200}[a['su']]
+    probe = c06.make_probe(ss, specs, a['mu'], a['mdt'])
+    sim = ss.Sim(n_agents=10, unit=a['su'], dt=a['sdt'], dur=dur, analyzers=probe, verbose=0)
+    sim.init()
+    p = sim.analyzers[0]
+    def chk(stage):
+        for name, (kind, v, unit) in specs.items():
+            tp = p.pars.nested.inner if name == 'inner' else p.pars[name]
+            exp = dict(unit=canon(unit) if unit is not None else p.t.unit, sdt=1.0, punit=p.t.unit, pdt=p.t.dt)
+            sig = dict(oracle='module-relink', kind=kind, stage=stage)
+            why = check_values(c06, kind, tp, exp)
+            if why:
+                return [F(dict(sig, check='values'), f"module parameter ss.{kind}({v}, unit={unit!r}) in a sim ({a['su']}, dt={a['sdt']}), module step ({p.t.unit}, {p.t.dt})"
+                          + (f" after the step was changed from {a['mdt']} and Module.init_time(force=True)" if stage == 'relinked' else '') + f': {why}')]
+            if (tp.parent_unit, float(tp.parent_dt)) != (p.t.unit, float(p.t.dt)):
+                return [F(dict(sig, check='fields'), f"module parameter ss.{kind}({v}, unit={unit!r}) records parent ({tp.parent_unit}, {tp.parent_dt}) but the module's step is ({p.t.unit}, {p.t.dt}) [{stage}]")]
+        return []
+    out = chk('first')
+    if out: return out
+    p.t.dt = a['mdt2']
+    p.init_time(force=True)
+    return chk('relinked')
+
+
+def gen_module_relink(rng, c06):
+    su, sdt, mu, mdt, mdt2 = rng.choice(RELINK_TIMES)
+    specs = {}
+    for name in ['a', 'b', 'c', 'inner']:
+        kind = rng.choice(KINDS)
+        v = [float(rng.choice(HIST_V[kind])) for _ in range(3)] if rng.random() < 0.4 else rng.choice(HIST_V[kind])
+        specs[name] = [kind, v, c06.gen_unit(rng, p_none=0.3, p_alias=0.1, p_special=0, p_bad=0)]
+    return dict(su=su, sdt=sdt, mu=mu, mdt=mdt, mdt2=mdt2, specs=specs)
+
+
+ORACLES = dict(history=o_history, rateprob_mono=o_rateprob_mono, module_relink=o_module_relink)
 
 
 def search(ctx, c06, run_oracle):
@@ -251,6 +343,19 @@ def search(ctx, c06, run_oracle):
             run_oracle(ctx, 'history', fixed_history(rng, kind, array))
     for _ in range(ctx.budget(120, 1200)):
         run_oracle(ctx, 'history', gen_history(rng))
+    # every per-step identity for a parameter that ALREADY HAS another parent when it is linked (constructor / earlier link / parent object):
+    # every ordered unit pair x every class; and the parameters of a module whose step is changed and re-linked
+    for u, pu in itertools.product(CANON, CANON):
+        for kind in KINDS:
+            pdt = rng.choice(HIST_DT)
+            pre = [rng.choice(['init', 'ctor', 'initp']), rng.choice(CANON), other(rng, HIST_DT, pdt)]
+            v = [float(rng.choice(HIST_V[kind])) for _ in range(3)] if rng.random() < 0.4 else rng.choice(HIST_V[kind])
+            name = {'dur': 'steps', 'rate': 'steps', 'rate_prob': 'rateprob'}.get(kind, 'timeprob')
+            run_oracle(ctx, name, dict(kind=kind, v=v, unit=u, punit=pu, pdt=pdt, pre=pre, via=rng.choice(['kw', 'dict', 'time'] if float(pdt) == int(pdt) else ['kw', 'dict'])))
+    for k in range(ctx.budget(len(RELINK_TIMES), 60)):
+        a = gen_module_relink(rng, c06)
+        if k < len(RELINK_TIMES): a.update(zip(('su', 'sdt', 'mu', 'mdt', 'mdt2'), RELINK_TIMES[k]))
+        run_oracle(ctx, 'module_relink', a)
     # the rate-derived probability at every magnitude: formula (scalar and array) and monotonicity, every ordered unit pair
     for u, pu in itertools.product(CANON, CANON):
         pdt = rng.choice([1.0, 0.5, 2.0, 0.1, 7.0, 1 / 3])
@@ -260,6 +365,28 @@ def search(ctx, c06, run_oracle):
         dts = sorted({rng.choice([0.1, 0.25, 0.5, 1.0, 2.0, 4.0, 7.0, 0.3, 3.0]) for _ in range(5)} | {1.0})
         run_oracle(ctx, 'rateprob_mono', dict(v=rng.choice(RATE_GRID), unit=u, punit=pu, dts=dts))
         run_oracle(ctx, 'rateprob_mono', dict(v=[float(t) for t in rng.sample(RATE_GRID, 5)], unit=u, punit=pu, dts=dts))
+
+
+# ---------------------------------------------------------------------------
+# correspondence: always-exercised re-link sessions (format of c06.run_session)
+
+def fixed_sessions(rng):
+    """ the same object linked to one parent and then to another with a different dt: by keywords, by parent objects, with a parent already
+        given to the constructor, without update_values, and with None arguments that must leave the recorded parent alone """
+    out = []
+    for kind in KINDS:
+        v = rng.choice(HIST_V[kind]) if rng.random() < 0.5 else [float(rng.choice(HIST_V[kind])) for _ in range(3)]
+        mode = 'Q' if kind in ('dur', 'rate') else 'F'
+        d = rng.sample(HIST_DT, 4)
+        u = rng.choice(CANON)
+        out.append(dict(mode=mode, kind=kind, v=v, unit=u, punit=None, pdt=None, sdt=1.0,
+                        ops=[['init', 'kw', rng.choice(CANON), d[0], None, True, True], ['init', 'kw', rng.choice(CANON), d[1], None, True, True],
+                             ['init', rng.choice(['dict', 'time0']), rng.choice(CANON), d[2], None, True, True], ['init', 'kw', None, d[3], None, True, True],
+                             ['init', 'kw', rng.choice(CANON), None, None, True, True], ['init', 'kw', None, None, None, True, True]]))
+        out.append(dict(mode=mode, kind=kind, v=v, unit=u, punit=rng.choice(CANON), pdt=d[0], sdt=rng.choice([1.0, 2.0]),
+                        ops=[['init', rng.choice(['kw', 'dict']), rng.choice(CANON), d[1], None, True, True], ['init', 'kw', rng.choice(CANON), d[2], None, False, True],
+                             ['set', None, None, None, None, None, True], ['init', 'dict', None, d[3], None, True, False]]))
+    return out
 
 
 # ---------------------------------------------------------------------------
